@@ -645,6 +645,18 @@ class Explorer:
             self.finish()
         return self.done
 
+    def abort(self):
+        """Stop now: the remaining work is not needed."""
+        if self.done:
+            return
+        self.stats['complete'] = False
+        for p in self.pool.workers.values():
+            try:
+                p.terminate()
+            except Exception:
+                pass
+        self.finish()
+
     def finish(self):
         if self.done:
             return
@@ -668,28 +680,44 @@ def explore(mod, params, procs=None, max_paths=None, deadline=None):
     return ex.results, ex.stats
 
 
-def explore_many(specs, concurrent=3):
+def explore_many(specs, concurrent=3, watch=None):
     """specs: list of dicts(mod, params, procs, max_paths, timeout_s).  Runs up
     to `concurrent` explorations at a time (pools are created and driven from
-    this thread only).  Yields (index, results, stats) in order of `specs`."""
+    this thread only).  Yields (index, results, stats) in order of `specs`.
+    `watch(index, new_results)` is called with the path results that arrived
+    since the last call; when it returns True every exploration is stopped
+    (the caller has a confirmed counterexample and does not need the rest)."""
     active = {}
+    scanned = {}
     nxt = 0
     out = {}
     emit = 0
-    while emit < len(specs):
-        while nxt < len(specs) and len(active) < concurrent:
-            sp = specs[nxt]
-            active[nxt] = Explorer(sp['mod'], sp['params'], sp.get('procs'),
-                                   sp.get('max_paths'), sp.get('timeout_s'))
-            nxt += 1
-        for i in list(active):
-            if active[i].step():
-                ex = active.pop(i)
-                out[i] = (ex.results, ex.stats)
-        while emit in out:
-            r, st = out.pop(emit)
-            yield emit, r, st
-            emit += 1
+    try:
+        while emit < len(specs):
+            while nxt < len(specs) and len(active) < concurrent:
+                sp = specs[nxt]
+                active[nxt] = Explorer(sp['mod'], sp['params'], sp.get('procs'),
+                                       sp.get('max_paths'), sp.get('timeout_s'))
+                nxt += 1
+            for i in list(active):
+                ex = active[i]
+                fin = ex.step()
+                if watch is not None:
+                    n0 = scanned.get(i, 0)
+                    if len(ex.results) > n0:
+                        scanned[i] = len(ex.results)
+                        if watch(i, ex.results[n0:]):
+                            return
+                if fin:
+                    active.pop(i)
+                    out[i] = (ex.results, ex.stats)
+            while emit in out:
+                r, st = out.pop(emit)
+                yield emit, r, st
+                emit += 1
+    finally:
+        for ex in active.values():
+            ex.abort()
 
 
 def explore_seq(harness, max_paths=None):
